@@ -817,3 +817,97 @@ def g2b_role_tokens(ctx: Ctx, scope, rule="G2b"):
                         ctx.ob(rule, f"{f.short}: `{nm}(...)` receives values of the '{mine}' role only", not opp,
                                f"argument(s) {opp} belong to the '{other}' role" if opp else "", ctx.prog.loc(f, c), c)
     return n
+
+
+# --------------------------------------------------------------------------- G15  loop variable used after its loop
+# A name bound only as the target of a `for` and read after that loop holds whatever the last iteration left (or is
+# unbound when the iterable was empty): in a constructor that walks two argument lists this wires the second list's
+# elements to the *last* element of the first.
+def _for_targets(t):
+    if isinstance(t, ast.Name):
+        yield t.id
+    elif isinstance(t, (ast.Tuple, ast.List)):
+        for e in t.elts:
+            yield from _for_targets(e)
+    elif isinstance(t, ast.Starred):
+        yield from _for_targets(t.value)
+
+
+def _is_target(lp, name_node) -> bool:
+    return any(x is name_node for x in ast.walk(lp.target))
+
+
+def g15_leaked_loop_variable(ctx: Ctx, scope, rule="G15"):
+    n = 0
+    for f in scope:
+        loops = [x for x in walk_own(f.node) if isinstance(x, (ast.For, ast.AsyncFor))]
+        if not loops:
+            continue
+        a = f.node.args
+        params = {x.arg for x in a.posonlyargs + a.args + a.kwonlyargs}
+        order = {}
+
+        def _number(node):
+            order[id(node)] = len(order)
+            for ch in ast.iter_child_nodes(node):
+                _number(ch)
+        _number(f.node)
+        spans = []      # (first index, last index, names bound) per loop
+        for lp in loops:
+            idx = [order[id(y)] for y in ast.walk(lp) if not isinstance(y, ast.expr_context) and id(y) in order]
+            spans.append((min(idx), max(idx), set(_for_targets(lp.target)) - {"_"} - params, lp))
+        names = set().union(*[sp[2] for sp in spans]) if spans else set()
+        plain_stores = {}
+        for y in walk_own(f.node):
+            if isinstance(y, ast.Name) and isinstance(y.ctx, ast.Store) and y.id in names:
+                k = order[id(y)]
+                if not any(lo <= k <= hi and y.id in nb and _is_target(lp_, y) for lo, hi, nb, lp_ in spans):
+                    plain_stores.setdefault(y.id, []).append(k)
+        for nm in sorted(names):
+            n += 1
+            bad = None
+            for y in walk_own(f.node):
+                if not (isinstance(y, ast.Name) and y.id == nm and isinstance(y.ctx, ast.Load)):
+                    continue
+                k = order[id(y)]
+                if any(lo <= k <= hi and nm in nb for lo, hi, nb, _ in spans):
+                    continue            # inside a loop that binds the name
+                ended = [hi for lo, hi, nb, _ in spans if nm in nb and hi < k]
+                if not ended:
+                    continue
+                if any(max(ended) < st < k for st in plain_stores.get(nm, ())):
+                    continue            # rebound by an ordinary assignment after the loop
+                bad = y
+                break
+            ctx.ob(rule, f"{f.short}: loop variable '{nm}' is not read after its loop", bad is None,
+                   f"'{nm}' is read at line {bad.lineno} after the loop that binds it ended: it holds the last element of that iteration, not a value of its own" if bad is not None else "",
+                   ctx.prog.loc(f, bad) if bad is not None else f.where, bad)
+    return n
+
+
+# --------------------------------------------------------------------------- G16  mode switch assigns the same fields in both arms
+# A setter of the form `if <mode A>: self.x = ...; self.flag = True  else: self.x = ...; self.flag = False` keeps x and its
+# mode flag in step; an arm that leaves one of the fields alone lets the flag of the previous mode survive.
+def g16_symmetric_arms(ctx: Ctx, scope, rule="G16"):
+    n = 0
+
+    def stored(stmts):
+        s = set()
+        for st in stmts:
+            for y in ast.walk(st):
+                if isinstance(y, ast.Attribute) and isinstance(y.ctx, ast.Store) and isinstance(y.value, ast.Name) and y.value.id == "self":
+                    s.add(y.attr)
+        return s
+    for f in scope:
+        if f.kind != "setter":
+            continue
+        for x in walk_own(f.node):
+            if isinstance(x, ast.If) and x.orelse:
+                a, b = stored(x.body), stored(x.orelse)
+                if not a or not b:
+                    continue
+                n += 1
+                ctx.ob(rule, f"{f.short}: both arms of `if {ast.unparse(x.test)[:40]}` store the same fields", a == b,
+                       "" if a == b else f"one arm stores {sorted(a)}, the other {sorted(b)}: {sorted(a ^ b)} keeps the value of the previous mode",
+                       ctx.prog.loc(f, x), x)
+    return n
